@@ -583,6 +583,11 @@ def fuzz_runner(shard, nshards, tier, stats):
         if labels:
             stats.extra["fuzz_labels"] = labels[-1]
         crashes = sorted(glob.glob(os.path.join(tmp, "crash-*")))
+        if crashes:
+            # kept in evidence: what the child printed when it stopped (the crash file itself is replayed below)
+            stats.extra["fuzz_crash_files"] = len(crashes)
+            stats.extra["fuzz_crash_output"] = r.stderr[-1500:]
+            sys.stderr.write(f"[C13/fuzz shard {shard}] atheris stopped on a crash file:\n{r.stderr[-1500:]}\n")
         if r.returncode != 0 and not crashes:
             raise RuntimeError(f"atheris run failed without a crash file:\n{r.stderr[-2000:]}")
         for path in crashes:
